@@ -35,8 +35,17 @@ case "$TIER" in
   *) echo "unknown tier $TIER"; exit 2 ;;
 esac
 
-timeout -k 10 "$LIMIT" "$VERIF/$CRATE/target/release/$BIN" "$ID" "$TIER" "$@"
-rc=$?
+if [ "$CRATE" = sched ]; then
+  # shuttle prints every failing schedule to stderr (also while shrinking); results go to stdout
+  ERR_LOG=$(mktemp /tmp/seqio_verif_stderr.XXXXXX)
+  timeout -k 10 "$LIMIT" "$VERIF/$CRATE/target/release/$BIN" "$ID" "$TIER" "$@" 2>"$ERR_LOG"
+  rc=$?
+  if [ $rc -ne 0 ] && [ $rc -ne 1 ]; then tail -20 "$ERR_LOG"; fi
+  rm -f "$ERR_LOG"
+else
+  timeout -k 10 "$LIMIT" "$VERIF/$CRATE/target/release/$BIN" "$ID" "$TIER" "$@"
+  rc=$?
+fi
 if [ $rc -eq 124 ] || [ $rc -eq 137 ]; then
   echo "INCONCLUSIVE: watchdog expired after ${LIMIT}s (not a violation)"
   exit 2
